@@ -30,6 +30,8 @@ pub struct Job {
   pub tier: String,
   pub inputs: Vec<RunInput>,
   pub keep_lines: bool,
+  /// wall-clock limit of one run inside the child (hang watchdog)
+  pub watchdog_s: f64,
 }
 
 #[derive(Debug)]
@@ -74,6 +76,8 @@ fn detrand_reset(seed: u64) {
 // ---------------------------------------------------------------------------
 
 static PANICS: Mutex<Vec<(String, String)>> = Mutex::new(Vec::new());
+#[allow(clippy::type_complexity)]
+static WATCH: Mutex<Option<(Instant, u64, Option<Vec<u64>>)>> = Mutex::new(None);
 
 pub fn install_panic_hook() {
   std::panic::set_hook(Box::new(|info| {
@@ -223,8 +227,48 @@ pub fn run_forked(job: &Job, timeout: Duration) -> ChildEnd {
       libc::setrlimit(libc::RLIMIT_AS, &lim);
     }
     let mut out = unsafe { std::fs::File::from_raw_fd(fds[1]) };
+    let out_fd = fds[1];
+    // hang watchdog (one thread per child): if a run does not return in time,
+    // report it with the decisions it had drawn so far (its replay) and end the child
+    {
+      let limit = Duration::from_secs_f64(job.watchdog_s.max(1.0));
+      std::thread::spawn(move || loop {
+        std::thread::sleep(Duration::from_millis(50));
+        let cur = WATCH.lock().unwrap_or_else(|e| e.into_inner()).clone();
+        if let Some((start, seed, replayed)) = cur {
+          if start.elapsed() >= limit {
+            let choices = simcore::choice::mirror_snapshot().or(replayed);
+            let r = RunOutput {
+              seed,
+              digest: 0,
+              fingerprint: 0,
+              nontrivial: false,
+              sim_ns: 0,
+              steps: 0,
+              n_choices: choices.as_ref().map_or(0, |c| c.len()),
+              violation: Some(Violation::new(
+                "hang/wall-clock",
+                format!("the run did not return within {limit:?} of wall-clock time (a call never came back)"),
+              )),
+              choices,
+              stats: Default::default(),
+              lines: None,
+            };
+            let line = serde_json::to_string(&r).unwrap() + "\n";
+            unsafe {
+              libc::write(out_fd, line.as_ptr() as *const libc::c_void, line.len());
+              libc::_exit(3);
+            }
+          }
+        }
+      });
+    }
     for inp in &job.inputs {
+      simcore::choice::mirror_start();
+      *WATCH.lock().unwrap_or_else(|e| e.into_inner()) = Some((Instant::now(), inp.seed, inp.choices.clone()));
       let r = exec_one(&job.prop, &job.tier, inp, job.keep_lines);
+      *WATCH.lock().unwrap_or_else(|e| e.into_inner()) = None;
+      simcore::choice::mirror_stop();
       let line = serde_json::to_string(&r).unwrap();
       let _ = out.write_all(line.as_bytes());
       let _ = out.write_all(b"\n");
@@ -309,7 +353,8 @@ pub fn describe_status(status: i32) -> String {
 /// single run that causes them, which is reported as a violation of class
 /// `abort` / `hang` (the run's seed is its replay).
 pub fn run_batch_robust(job: &Job, per_run_timeout: Duration) -> Vec<RunOutput> {
-  let total = per_run_timeout * (job.inputs.len() as u32).max(1) + Duration::from_secs(5);
+  // the in-child watchdog fires at per_run_timeout; the parent's limit is a backstop
+  let total = per_run_timeout * (job.inputs.len() as u32).max(1) + Duration::from_secs(8);
   match run_forked(job, total) {
     ChildEnd::Ok(v) => v,
     ChildEnd::Died { done, .. } | ChildEnd::Timeout { done } => {
@@ -321,8 +366,9 @@ pub fn run_batch_robust(job: &Job, per_run_timeout: Duration) -> Vec<RunOutput> 
           tier: job.tier.clone(),
           inputs: vec![inp.clone()],
           keep_lines: job.keep_lines,
+          watchdog_s: job.watchdog_s,
         };
-        match run_forked(&single, per_run_timeout + Duration::from_secs(5)) {
+        match run_forked(&single, per_run_timeout + Duration::from_secs(8)) {
           ChildEnd::Ok(mut v) => out.append(&mut v),
           ChildEnd::Died { status, .. } => out.push(synthetic(
             inp,
